@@ -22,7 +22,9 @@ RULE = ("cases = (type-consistent nested trees, depth <= 4, for the nine levels 
         "permitted order of the public load calls with constructor arguments, redundant loads and merge=False mixed in; "
         "modifications through attribute/item writes before and after load_shell_env); plus the enumeration of all 36 "
         "level pairs x depth 1-3 x {disjoint, overlapping leaf, overlapping section} and all 15 subsets of candidate "
-        "suffixes per file location, and random runs of the real CLI (Program.run: flags -> overrides, -f / INVOKE_RUNTIME_CONFIG -> "
+        "suffixes per file location, HISTORIES on one Config object (levels loaded, replaced by different content, emptied / unloaded "
+        "again, attribute writes, one load_shell_env at the end; the view is read and judged after EVERY operation and the caller's "
+        "input dicts are compared with snapshots), and random runs of the real CLI (Program.run: flags -> overrides, -f / INVOKE_RUNTIME_CONFIG -> "
         "runtime file, tasks.py -> collection + project file); non-trivial = some path is defined by at least two levels; distinct = distinct cases")
 TRUSTED = ["Lean 4.33 kernel", "axioms propext/Classical.choice/Quot.sound only",
            "harness/props/c03.py + harness/valcodec.py correspondence and canonicalisation",
@@ -616,12 +618,224 @@ def replay(case):
         got = run_suffix(case)
         why = oracle_suffix(case, got)
         return why is None, why or "ok (%s)" % got
+    if case["kind"] == "history":
+        why = oracle_history(case, *run_history(case))
+        return why is None, why or "ok"
     if case["kind"] == "program":
         seen, exc, base = run_program(case)
         why = oracle_program(case, seen, exc, base)
         return why is None, why or "ok"
     return True, "auxiliary differential case (no property statement attached)"
 
+
+
+# ------------------------------------------------------------------ histories on ONE object: levels loaded, replaced, emptied
+
+HIST_CODE = {"defaults": "d", "collection": "c", "system": "s", "user": "u", "project": "p", "runtime": "r",
+             "overrides": "o", "modifications": "m"}
+
+
+def gen_history(rng):
+    while True:
+        schema = gen_schema(rng)
+        if schema_ok(schema) and list(leaves(schema)):
+            break
+    ops = []
+    for lvl in ("system", "user"):
+        if rng.random() < 0.5:
+            ops.append({"op": lvl, "tree": tag(gen_level(rng, schema)), "suffix": rng.choice(SUFFIXES)})
+    n = rng.randint(4, 9)
+    for _ in range(n):
+        r = rng.random()
+        if r < 0.45:
+            lvl = rng.choice(["defaults", "collection", "overrides"])
+            t = {} if rng.random() < 0.25 else gen_level(rng, schema, rng.choice([0.3, 0.6, 0.9]))
+            ops.append({"op": lvl, "tree": tag(t)})
+        elif r < 0.75:
+            lvl = rng.choice(["project", "runtime"])
+            if rng.random() < 0.3:
+                # unloaded again: the path / location is un-set (None), or the location has no config file
+                ops.append({"op": lvl, "tree": None, "unset": lvl == "runtime" or rng.random() < 0.5})
+            else:
+                ops.append({"op": lvl, "tree": tag(gen_level(rng, schema, rng.choice([0.3, 0.6, 0.9]))), "suffix": rng.choice(SUFFIXES)})
+        else:
+            lv = list(leaves(schema))
+            p, ty = rng.choice(lv)
+            ops.append({"op": "write", "path": list(p), "value": tag(gen_value(rng, ty))})
+    rng.shuffle(ops)
+    if rng.random() < 0.6:
+        # the environment is read once the other levels are in place; only attribute writes follow
+        state = hist_levels(ops)
+        at_load = {}
+        for lvl in ORDER:
+            if lvl != "env":
+                at_load = overlay(at_load, state[lvl])
+        environ = {}
+        for p, _ in leaves(at_load):
+            ty = schema_type(schema, p)
+            if ty in ENV_TYPES and rng.random() < 0.4:
+                environ["INVOKE_" + var_of(p)] = env_value(rng, ty)
+        ops.append({"op": "env", "environ": environ})
+        for _ in range(rng.choice([0, 1, 2])):
+            p, ty = rng.choice(list(leaves(schema)))
+            ops.append({"op": "write", "path": list(p), "value": tag(gen_value(rng, ty))})
+    return {"kind": "history", "ops": ops}
+
+
+def hist_levels(ops):
+    """level contents after the given operations (the env level: as computed when load_shell_env ran)"""
+    st = {l: {} for l in ORDER}
+    for op in ops:
+        k = op["op"]
+        if k == "write":
+            st["modifications"] = overlay(st["modifications"], nest(op["path"], build(op["value"])))
+        elif k == "env":
+            at_load = {}
+            for lvl in ORDER:
+                if lvl != "env":
+                    at_load = overlay(at_load, st[lvl])
+            env = {}
+            for p, cur in leaves(at_load):
+                name = "INVOKE_" + var_of(p)
+                if name in op["environ"]:
+                    env = overlay(env, nest(list(p[:-1]), {p[-1]: cast_env(cur, op["environ"][name])}))
+            st["env"] = env
+        elif k in ("system", "user") and st.get("_" + k):
+            pass  # a second load_system()/load_user() is a no-op
+        else:
+            st[k] = build(op["tree"]) if op["tree"] is not None else {}
+            if k in ("system", "user"):
+                st["_" + k] = True
+    return st
+
+
+def run_history(case):
+    """-> (views after every operation, exception class | None, names of caller-held dicts that were changed)"""
+    from invoke.config import Config
+    root = tempfile.mkdtemp(prefix="verif_c03_")
+    views, held = [], []
+    try:
+        sysd, userd = os.path.join(root, "sys"), os.path.join(root, "user")
+        os.makedirs(sysd)
+        os.makedirs(userd)
+        with replaced_environ({}):
+            c = Config(defaults={}, system_prefix=os.path.join(sysd, ""), user_prefix=os.path.join(userd, "."), lazy=True)
+            for i, op in enumerate(case["ops"]):
+                k = op["op"]
+                if k in ("defaults", "collection", "overrides"):
+                    data = build(op["tree"])
+                    held.append((k, i, data, copy.deepcopy(data)))
+                    getattr(c, "load_" + k)(data)
+                elif k in ("system", "user"):
+                    stem = os.path.join(sysd, "invoke.") if k == "system" else os.path.join(userd, ".invoke.")
+                    if not any(f.startswith(os.path.basename(stem)) for f in os.listdir(os.path.dirname(stem))):
+                        write_file(stem + op["suffix"], op["suffix"], build(op["tree"]))
+                    getattr(c, "load_" + k)()
+                elif k == "project":
+                    d = os.path.join(root, "proj%d" % i)
+                    os.makedirs(d)
+                    if op["tree"] is not None:
+                        write_file(os.path.join(d, "invoke." + op["suffix"]), op["suffix"], build(op["tree"]))
+                    c.set_project_location(None if op.get("unset") else d)
+                    c.load_project()
+                elif k == "runtime":
+                    path = None
+                    if op["tree"] is not None:
+                        path = os.path.join(root, "rt%d.%s" % (i, op["suffix"]))
+                        write_file(path, op["suffix"], build(op["tree"]))
+                    c.set_runtime_path(path)
+                    c.load_runtime()
+                elif k == "write":
+                    cur = c
+                    for key in op["path"][:-1]:
+                        if key not in cur:
+                            cur[key] = {}
+                        cur = cur[key]
+                    cur[op["path"][-1]] = build(op["value"])
+                elif k == "env":
+                    os.environ.update(op["environ"])
+                    try:
+                        c.load_shell_env()
+                    finally:
+                        os.environ.clear()
+                views.append(plain(c))
+        changed = ["%s (operation %d)" % (k, i) for k, i, d, snap in held
+                   if {p: typed(v) for p, v in leaves(d)} != {p: typed(v) for p, v in leaves(snap)} or set(sections(d)) != set(sections(snap))]
+        return views, None, changed
+    except Exception as e:  # noqa
+        return views, type(e).__name__, []
+    finally:
+        shutil.rmtree(root, ignore_errors=True)
+
+
+def is_unset(op):
+    return op["op"] in ("project", "runtime") and op.get("tree") is None and (op.get("unset") or op["op"] == "runtime")
+
+
+def oracle_history(case, views, exc, changed):
+    if exc is not None:
+        return "operation %d of a type-consistent history raised %s" % (len(views) + 1, exc)
+    tagged = None
+    for i, view in enumerate(views):
+        why = judge_view(case, i, view)
+        if why is None:
+            continue
+        if is_unset(case["ops"][i]) and i > 0 and enc_tree(view, canon=True) == enc_tree(views[i - 1], canon=True):
+            # recorded finding: the slot was reset but nothing re-merged, the previous view is still shown
+            tagged = tagged or "[stale-cache] " + why
+            continue
+        return why
+    if changed:
+        return "the contents of a level changed without a load: the caller's dict given to load_%s was modified" % changed[0]
+    return tagged
+
+
+def judge_view(case, i, view):
+    if True:
+        t = hist_levels(case["ops"][:i + 1])
+        want = {}
+        for lvl in ORDER:
+            for p, v in leaves(t[lvl]):
+                want[p] = (lvl, typed(v))
+        got = {p: typed(v) for p, v in leaves(view)}
+        for p, (lvl, tv) in want.items():
+            if got.get(p) != tv:
+                return "after operation %d (%s): setting %s shows %s but the highest level defining it NOW (%s) says %s" % (
+                    i + 1, case["ops"][i]["op"], ".".join(p), got.get(p, ("", "<absent>"))[1], lvl, tv[1])
+        if set(got) - set(want):
+            return "after operation %d (%s): setting %s is visible but no level defines it now" % (
+                i + 1, case["ops"][i]["op"], ".".join(sorted(set(got) - set(want))[0]))
+        secs = set()
+        for lvl in ORDER:
+            secs |= set(sections(t[lvl]))
+        if set(sections(view)) != secs:
+            return "after operation %d: sections are not the union of the levels' sections: %r" % (i + 1, sorted(set(sections(view)) ^ secs)[:3])
+    return None
+
+
+def match_known(entry, failure):
+    return entry.get("id") == "C03-unload-stale-cache" and str(failure.get("why", "")).startswith("[stale-cache]")
+
+
+def history_line(case):
+    parts = ["hist", enc_str("INVOKE_")]
+    mods = {}
+    seen = set()
+    for op in case["ops"]:
+        k = op["op"]
+        if k == "env":
+            parts.append("e=" + enc_environ(op["environ"]))
+            continue
+        if k == "write":
+            mods = overlay(mods, nest(op["path"], build(op["value"])))
+            parts.append("m=" + enc_tree(mods))
+        elif k in ("system", "user") and k in seen:
+            pass
+        else:
+            seen.add(k)
+            parts.append(HIST_CODE[k] + "=" + ("-" if is_unset(op) else enc_tree(build(op["tree"]) if op["tree"] is not None else {})))
+        parts.append("v")
+    return " ".join(parts)
 
 # ------------------------------------------------------------------ model side
 
@@ -656,6 +870,8 @@ def run(ctx):
     lines = [view_line(c) for c in cases]
     lines += ["suffix " + (",".join(c["present"]) or "-") for c in sfx]
     lines += ["merge %s %s" % (enc_tree(build(c["base"])), enc_tree(build(c["upd"]))) for c in mrg]
+    hst = [gen_history(rng) for _ in range(ctx.n(1200, 15000))]
+    lines += [history_line(c) for c in hst]
     model = drv.run(lines) if ctx.model_ok else [None] * len(lines)
     for c, m in zip(cases, model):
         view, exc = run_levels(c)
@@ -708,6 +924,26 @@ def run(ctx):
             out.traces += 1
             if m != got:
                 out.disagree(c, got[:300], m[:300])
+    for c, m in zip(hst, model[len(cases) + len(sfx) + len(mrg):]):
+        views, exc, changed = run_history(c)
+        out.case(c, True)
+        out.hist["history"] += 1
+        out.hist["history_ops:%d" % min(len(c["ops"]), 12)] += 1
+        kinds = [op["op"] for op in c["ops"]]
+        out.hist["history_level_replaced:%d" % min(3, sum(kinds.count(k) - 1 for k in set(kinds) if k in HIST_CODE and kinds.count(k) > 1))] += 1
+        out.hist["history_emptied:%d" % min(2, sum(1 for op in c["ops"] if op["op"] in HIST_CODE and (op.get("tree") is None or op.get("tree") == {})))] += 1
+        out.hist["history_env:%d" % ("env" in kinds)] += 1
+        out.hist["history_unset:%d" % min(2, sum(1 for op in c["ops"] if is_unset(op)))] += 1
+        if m is not None:
+            out.traces += 1
+            got = "|".join("ok " + enc_tree(v, canon=True) for v in views) + ("|err:" + exc if exc else "")
+            if got != m:
+                out.disagree(c, got[:500], m[:500])
+        why = oracle_history(c, views, exc, changed)
+        if why:
+            if why.startswith("[stale-cache]"):
+                out.hist["history_stale_cache_finding"] += 1
+            out.fail(c, why)
     for _ in range(ctx.n(150, 2500)):
         c = gen_program_case(rng)
         seen, exc, base = run_program(c)
